@@ -9,27 +9,15 @@ Lemma read_one_checked : forall a, let d := sys_1 skel Reader a in scheck d (one
 Proof. intros []; vm_cast_no_check (eq_refl true). Qed.
 Lemma read_oned_checked : forall a, let d := sys_1d skel Reader a in scheck d (oned_inv d) = true.
 Proof. intros []; vm_cast_no_check (eq_refl true). Qed.
+(* F11 and F12 repaired: the FULL deadline-change statement (every setter value, incl. clearing) *)
+Lemma read_full_checked : forall a, let d := sys_1 skel Reader a in scheck d (fixed_one_inv Reader d) = true.
+Proof. intros []; vm_cast_no_check (eq_refl true). Qed.
 Lemma read_rearm_checked : forall a, let d := sys_rearm skel Reader a in scheck d (rearm_inv d) = true.
 Proof. intros []; vm_cast_no_check (eq_refl true). Qed.
 
-(* F12: no deadline at entry, one is set while the call is parked, it expires: nothing fires *)
-Definition f12_read_labels : list label :=
-  [LThread 0; LThread 0; LThread 0; LSetRD DFuture; LThread 0; LThread 0; LTick RD].
-Lemma read_none_then_set_found :
-  forall a, let d := sys_none_then_set skel Reader a in found_ok d (inv_expiry_wakes d) f12_read_labels = true.
+(* stale-timer timeouts repaired: a timeout is returned only when the deadline stored at that
+   moment has passed (the strong reading; boundary B11 is closed) *)
+Lemma read_strong_tm_checked : forall a, let d := sys_tm skel Reader a in scheck d (strong_tm_inv d) = true.
 Proof. intros []; vm_cast_no_check (eq_refl true). Qed.
-
-(* F11: deadline at entry, cleared, set again, expires: c is still nil *)
-Definition f11_read_labels : list label :=
-  [LThread 0; LThread 0; LThread 0; LSetRD DNone; LThread 0; LThread 0; LThread 0; LSetRD DFuture;
-   LThread 0; LThread 0; LThread 0; LTick RD].
-Lemma read_set_zero_set_found :
-  forall a, let d := sys_set_zero_set skel Reader a in found_ok d (inv_expiry_wakes_timer d) f11_read_labels = true.
-Proof. intros []; vm_cast_no_check (eq_refl true). Qed.
-
-(* B11: the deadline is extended just before the old one fires; the select may pick the timer *)
-Definition b11_read_labels : list label :=
-  [LThread 0; LSetRD DPast; LThread 0; LThread 0; LSetRD DFuture; LFire 0].
-Lemma read_strong_no_early_found :
-  forall a, let d := sys_1 skel Reader a in found_ok d (inv_no_early_strong d) b11_read_labels = true.
+Lemma read_strong_one_checked : forall a, let d := sys_1 skel Reader a in scheck d (strong_one_inv Reader d) = true.
 Proof. intros []; vm_cast_no_check (eq_refl true). Qed.
